@@ -69,6 +69,8 @@ pub fn generate(prop: &str, rng: &mut Rng, n: usize) -> Vec<Case> {
     let mut out = Vec::new();
     match prop {
         "C01" => gen_c01(rng, n, &mut out),
+        "C07" => gen_c07(rng, n, &mut out),
+        "C08" => gen_c08(rng, n, &mut out),
         _ => {}
     }
     out
@@ -79,6 +81,10 @@ pub fn run_case(c: &Case) -> Option<String> {
     let k = c.kind.as_str();
     if let Some(rest) = k.strip_prefix("c01_poly") { return run_c01(rest, &p, false); }
     if let Some(rest) = k.strip_prefix("c01_log") { return run_c01(rest, &p, true); }
+    if let Some(rest) = k.strip_prefix("c08_deriv") { return run_c08(rest.parse().ok()?, &p); }
+    if k == "c08_piecewise" { return run_c08_pw(&p); }
+    if let Some(rest) = k.strip_prefix("c07_indef") { return run_c07(rest.parse().ok()?, &p, false); }
+    if let Some(rest) = k.strip_prefix("c07_integral") { return run_c07(rest.parse().ok()?, &p, true); }
     Some(format!("unknown case kind {}", k))
 }
 
@@ -178,6 +184,189 @@ fn gen_c01(rng: &mut Rng, n: usize, out: &mut Vec<Case>) {
                 c.push(rng.float());
                 out.push(case(&format!("c01_poly{}", deg), &c));
             }
+        }
+    }
+}
+
+// ------------------------------------------------------------------------------------- C07 / C08
+impl Rng {
+    /// finite floats including extreme magnitudes
+    pub fn wide(&mut self) -> f64 {
+        match self.below(10) {
+            0 => f64::MAX / (1.0 + self.below(16) as f64 * 0.5),
+            1 => -f64::MAX / (1.0 + self.below(16) as f64 * 0.5),
+            2 => f64::MIN_POSITIVE * (1.0 + self.below(9) as f64),
+            3 => 5e-324 * (1 + self.below(7)) as f64,
+            4 => -0.0,
+            _ => self.float(),
+        }
+    }
+    pub fn odd(&mut self) -> f64 {
+        // values whose quotients/products by small integers are inexact
+        let base = [5.0, 7.0, 10.0, 14.0, 25.0, 0.1, 0.3, 1.0 / 3.0, 2.0 / 3.0, 1e-3, 12345.678, -7.0, -0.7];
+        base[self.below(base.len() as u64) as usize] * (if self.below(4) == 0 { (2.0f64).powi(self.below(40) as i32 - 20) } else { 1.0 })
+    }
+}
+
+macro_rules! with_poly {
+    ($deg:expr, $c:expr, |$p:ident| $body:expr) => {{
+        macro_rules! arr { ($n:expr) => {{ let mut a = [0.0f64; $n]; a.copy_from_slice(&$c[..$n]); a }}; }
+        match $deg {
+            1 => { let $p = Poly1(arr!(2)); $body }
+            2 => { let $p = Poly2(arr!(3)); $body }
+            3 => { let $p = Poly3(arr!(4)); $body }
+            4 => { let $p = Poly4(arr!(5)); $body }
+            5 => { let $p = Poly5(arr!(6)); $body }
+            6 => { let $p = Poly6(arr!(7)); $body }
+            7 => { let $p = Poly7(arr!(8)); $body }
+            _ => unreachable!(),
+        }
+    }};
+}
+
+fn deriv_coeffs(deg: usize, c: &[f64]) -> Vec<f64> {
+    macro_rules! arr { ($n:expr) => {{ let mut a = [0.0f64; $n]; a.copy_from_slice(&c[..$n]); a }}; }
+    match deg {
+        0 => vec![Poly0(c[0]).derivative().0],
+        1 => vec![Poly1(arr!(2)).derivative().0],
+        2 => Poly2(arr!(3)).derivative().0.to_vec(),
+        3 => Poly3(arr!(4)).derivative().0.to_vec(),
+        4 => Poly4(arr!(5)).derivative().0.to_vec(),
+        5 => Poly5(arr!(6)).derivative().0.to_vec(),
+        6 => Poly6(arr!(7)).derivative().0.to_vec(),
+        7 => Poly7(arr!(8)).derivative().0.to_vec(),
+        8 => Poly8(arr!(9)).derivative().0.to_vec(),
+        _ => unreachable!(),
+    }
+}
+
+fn run_c08(deg: usize, c: &[f64]) -> Option<String> {
+    let d = deriv_coeffs(deg, c);
+    if deg == 0 {
+        if d.len() != 1 || d[0] != 0.0 { return Some(format!("derivative of a constant is {:?}, expected the zero constant", d)); }
+        return None;
+    }
+    if d.len() != deg { return Some(format!("derivative has {} coefficients, expected {}", d.len(), deg)); }
+    for i in 0..deg {
+        let want = if i == 0 { c[1] } else { (i as f64 + 1.0) * c[i + 1] };
+        if d[i].to_bits() != want.to_bits() && !(d[i] == 0.0 && want == 0.0) {
+            return Some(format!("derivative coefficient {} is {:e}, (i+1)*c_(i+1) correctly rounded is {:e}", i, d[i], want));
+        }
+    }
+    None
+}
+
+fn run_c08_pw(p: &[f64]) -> Option<String> {
+    // params: n, then n * (end, c0..c3)
+    let n = p[0] as usize;
+    let mut segs = Vec::new();
+    for i in 0..n {
+        let o = 1 + i * 5;
+        segs.push(Segment { end: p[o], poly: Poly3([p[o + 1], p[o + 2], p[o + 3], p[o + 4]]) });
+    }
+    let pw = Piecewise { segments: segs.clone() };
+    let d = pw.derivative();
+    if d.segments.len() != n { return Some(format!("derivative has {} pieces, the function has {}", d.segments.len(), n)); }
+    for i in 0..n {
+        if d.segments[i].end.to_bits() != segs[i].end.to_bits() { return Some(format!("breakpoint {} changed from {:e} to {:e}", i, segs[i].end, d.segments[i].end)); }
+        let want = segs[i].poly.derivative();
+        if d.segments[i].poly != want && !(want.0.iter().any(|x| x.is_nan())) { return Some(format!("piece {} is {:?}, derivative of the piece is {:?}", i, d.segments[i].poly, want)); }
+        let sd = segs[i].derivative();
+        if sd.end.to_bits() != segs[i].end.to_bits() || sd.poly != want { return Some(format!("Segment::derivative of piece {} is wrong", i)); }
+    }
+    None
+}
+
+fn gen_c08(rng: &mut Rng, n: usize, out: &mut Vec<Case>) {
+    for deg in 0..=8usize {
+        for pos in 0..=deg {
+            let mut c = vec![0.0; deg + 1]; c[pos] = 1.0; out.push(case(&format!("c08_deriv{}", deg), &c));
+            let mut c: Vec<f64> = (0..=deg).map(|i| 3.0 + i as f64 * 1.25).collect(); c[pos] = 0.7; out.push(case(&format!("c08_deriv{}", deg), &c));
+            let mut c = vec![1.0; deg + 1]; c[pos] = f64::MAX / (pos as f64 + 0.5).max(1.0); out.push(case(&format!("c08_deriv{}", deg), &c));
+            let mut c = vec![1.0; deg + 1]; c[pos] = f64::MAX / (pos as f64 + 1.5); out.push(case(&format!("c08_deriv{}", deg), &c));
+        }
+    }
+    // piecewise: equal neighbouring derivatives, duplicate ends, single piece
+    let pieces = [[1.0, 2.0, 3.0, 4.0], [5.0, 2.0, 3.0, 4.0], [5.0, 2.5, 3.0, 4.0], [0.0, 0.0, 0.0, 0.0]];
+    for ends in [vec![1.0], vec![1.0, 2.0], vec![1.0, 1.0, 2.0], vec![-1.0, 0.0, 0.0, 3.0], vec![1.0, 2.0, 3.0, 3.0]] {
+        let mut v = vec![ends.len() as f64];
+        for (i, e) in ends.iter().enumerate() { v.push(*e); v.extend_from_slice(&pieces[i % 2]); }
+        out.push(case("c08_piecewise", &v));
+        let mut v = vec![ends.len() as f64];
+        for (i, e) in ends.iter().enumerate() { v.push(*e); v.extend_from_slice(&pieces[(i + 1) % 4]); }
+        out.push(case("c08_piecewise", &v));
+    }
+    while out.len() < n {
+        if rng.below(5) == 0 {
+            let k = 1 + rng.below(5) as usize;
+            let mut ends: Vec<f64> = (0..k).map(|_| (rng.below(7) as f64) - 3.0).collect();
+            ends.sort_by(|a, b| a.partial_cmp(b).unwrap());
+            let mut v = vec![k as f64];
+            for e in ends { v.push(e); for j in 0..4 { v.push(if j == 0 { rng.float() } else { (rng.below(3) as f64) }); } }
+            out.push(case("c08_piecewise", &v));
+        } else {
+            let deg = rng.below(9) as usize;
+            let c: Vec<f64> = (0..=deg).map(|_| match rng.below(3) { 0 => rng.wide(), 1 => rng.odd(), _ => rng.float() }).collect();
+            out.push(case(&format!("c08_deriv{}", deg), &c));
+        }
+    }
+}
+
+fn indef_coeffs(deg: usize, c: &[f64], knot: Option<Knot>) -> Vec<f64> {
+    if deg == 0 {
+        let p = Poly0(c[0]);
+        return match knot { None => p.indefinite().0.to_vec(), Some(k) => p.integral(k).0.to_vec() };
+    }
+    with_poly!(deg, c, |p| match knot { None => p.indefinite().0.to_vec(), Some(k) => p.integral(k).0.to_vec() })
+}
+
+fn run_c07(deg: usize, p: &[f64], with_knot: bool) -> Option<String> {
+    let (c, knot) = if with_knot { (&p[..deg + 1], Some(Knot { x: p[deg + 1], y: p[deg + 2] })) } else { (&p[..], None) };
+    let r = indef_coeffs(deg, c, knot);
+    if r.len() != deg + 2 { return Some(format!("result has {} coefficients, expected {}", r.len(), deg + 2)); }
+    for i in 0..=deg {
+        let want = if i == 0 { c[0] } else { c[i] / (i as f64 + 1.0) };
+        if r[i + 1].to_bits() != want.to_bits() && !(r[i + 1] == 0.0 && want == 0.0) {
+            return Some(format!("coefficient {} of the integral is {:e}, c_{}/{} correctly rounded is {:e}", i + 1, r[i + 1], i, i + 1, want));
+        }
+    }
+    match knot {
+        None => { if r[0] != 0.0 { return Some(format!("indefinite() has constant term {:e}, expected 0", r[0])); } }
+        Some(k) => {
+            let (v, mag) = polyval_dd(&r, k.x);
+            if !(v.to_f64().is_finite() && mag.is_finite()) { return None; } // overflow is outside the property
+            let err = v.sub(DD::from(k.y)).abs().to_f64();
+            let bound = 8.0 * (deg as f64 + 4.0) * U * (mag + k.y.abs()) + f64::MIN_POSITIVE;
+            if !(err <= bound) { return Some(format!("F(knot.x) = {:e} but knot.y = {:e} (|diff| {:e} > rounding bound {:e})", v.to_f64(), k.y, err, bound)); }
+        }
+    }
+    None
+}
+
+fn gen_c07(rng: &mut Rng, n: usize, out: &mut Vec<Case>) {
+    let knots = [(0.0, 1.0), (0.0, 0.0), (2.0, 5.0), (-1.5, 0.25), (3.0, 1e-17), (1.0, -1e-18), (0.5, 1e-300), (1e-9, 3.0)];
+    for deg in 0..=7usize {
+        for pos in 0..=deg {
+            let mut c = vec![0.0; deg + 1]; c[pos] = 7.0; out.push(case(&format!("c07_indef{}", deg), &c));
+            let mut c: Vec<f64> = (0..=deg).map(|i| 5.0 + i as f64).collect(); c[pos] = 0.7; out.push(case(&format!("c07_indef{}", deg), &c));
+            for &(x, y) in knots.iter() {
+                let mut c = vec![0.0; deg + 1]; c[pos] = if pos % 2 == 0 { 7.0 } else { 0.0 };
+                c.push(x); c.push(y);
+                out.push(case(&format!("c07_integral{}", deg), &c));
+                let mut c: Vec<f64> = (0..=deg).map(|i| 1.0 + i as f64).collect(); c.push(x); c.push(y);
+                out.push(case(&format!("c07_integral{}", deg), &c));
+            }
+        }
+    }
+    while out.len() < n {
+        let deg = rng.below(8) as usize;
+        let mut c: Vec<f64> = (0..=deg).map(|_| match rng.below(3) { 0 => rng.odd(), _ => rng.float() }).collect();
+        if rng.below(2) == 0 {
+            out.push(case(&format!("c07_indef{}", deg), &c));
+        } else {
+            c.push(if rng.below(4) == 0 { 0.0 } else { rng.float() });
+            c.push(match rng.below(4) { 0 => 0.0, 1 => rng.float() * 1e-17, _ => rng.float() });
+            out.push(case(&format!("c07_integral{}", deg), &c));
         }
     }
 }
